@@ -614,6 +614,11 @@ class Series:
     def notna(self):
         return Series([not (v is None or np._isnan1(v)) for v in self.vals])
 
+    def shift(self, periods=1, fill_value=None):
+        if periods < 0:
+            raise ModelGap("Series.shift with negative periods")
+        return Series(([fill_value] * periods + self.vals)[:len(self.vals)])
+
     @property
     def values(self):
         return self.to_numpy()
@@ -675,8 +680,8 @@ class DataFrame:
     def _take(self, pos):
         return DataFrame({k: [v[i] for i in pos] for k, v in self.cols.items()}, [self._index[i] for i in pos])
 
-    def drop_duplicates(self):
-        names = list(self.cols)
+    def drop_duplicates(self, subset=None):
+        names = list(self.cols) if subset is None else ([subset] if isinstance(subset, str) else list(subset))
         rows = self._rows(names)
         keep = []
         for i, r in enumerate(rows):
